@@ -139,7 +139,7 @@ def readRowsH {α : Type} (x : Ext α) (comma : Bool) (chan : String) (hdr : Lis
   if !(hdr.any (fun h => trunc 8 h.run == "MainRuns")) then none else
   let sel := hdr.filter (colOk chan)
   if sel.isEmpty then none else                       -- amax of an empty array
-  match allSome (sel.map (fun h => x.readNat (trunc 4 h.scan))) with
+  match allSome (sel.map (fun h => x.readNat (trunc 16 h.scan))) with
   | none => none
   | some scanNos =>
     let selNames := sel.map (fun h => trunc 32 h.name)
